@@ -4,6 +4,7 @@
 patch=$1; label=$2; shift 2
 props=${@:-C01 C02 C03 C05 C06 C07 C08 C10 C11 C12 C13 C15 C17 C18 C19 C20}
 cd /verif
+export VERIF_EVIDENCE_DIR=/tmp/neutral-evidence; mkdir -p $VERIF_EVIDENCE_DIR
 git -C /repo diff --quiet || { echo "/repo is dirty"; exit 3; }
 git -C /repo apply "$patch" || { echo "patch does not apply"; exit 3; }
 for p in $props; do
